@@ -362,7 +362,12 @@ for _n in CMAC_LENGTHS:
 # ---------------------------------------------------------------------------
 # ECDH: a peer public key that is not a point of P-256 yields no shared secret (built-in back end)
 # ---------------------------------------------------------------------------
-model('bumble.crypto.builtin:_EllipticCurve', fields=dict(p=Int, a=Int, b=Int, n=Int, g_x=Int, g_y=Int))
+P256 = cb._EllipticCurve.SECP256R1()
+assert (P256.p, P256.a, P256.b) == (P256_P, P256_A, P256_B)  # the curve constants of the code are those of FIPS 186-4 D.1.2.3
+model(
+    'bumble.crypto.builtin:_EllipticCurve',
+    fields=dict(p=Const(P256_P), a=Const(P256_A), b=Const(P256_B), n=Const(P256.n), g_x=Const(P256.g_x), g_y=Const(P256.g_y)),
+)
 model('bumble.crypto.builtin:_EllipticCurve.PrivateKey', fields=dict(key=Int, curve=Inst('bumble.crypto.builtin:_EllipticCurve')))
 model('bumble.crypto.builtin:EccKey', fields=dict(private_key=Inst('bumble.crypto.builtin:_EllipticCurve.PrivateKey')))
 contract(
@@ -378,23 +383,29 @@ contract(
 )
 
 
-def is_p256(c):
-    return c.p == P256_P and c.a == P256_A and c.b == P256_B
+def peer_point_on_curve(public_key_x, public_key_y):
+    return on_p256(int.from_bytes(public_key_x, 'big'), int.from_bytes(public_key_y, 'big'))
 
 
 contract(
     'bumble.crypto.builtin:EccKey.dh',
     prop='C14',
     params=dict(self=Inst('bumble.crypto.builtin:EccKey'), public_key_x=BytesN(32), public_key_y=BytesN(32)),
-    requires=lambda self: is_p256(self.private_key.curve),
-    # from the statement: a shared secret is produced only for a point of the curve
-    ensures=lambda public_key_x, public_key_y, res: [on_p256(int.from_bytes(public_key_x, 'big'), int.from_bytes(public_key_y, 'big')), len(res) == 32],
+    # from the statement: a shared secret is produced only for a point of the curve ...
+    ensures=lambda public_key_x, public_key_y, res: [peer_point_on_curve(public_key_x, public_key_y), len(res) == 32],
     ensures_names=['secret-only-for-on-curve-point', 'secret-is-32-bytes'],
-    raises={ValueError: lambda public_key_x, public_key_y: [not on_p256(int.from_bytes(public_key_x, 'big'), int.from_bytes(public_key_y, 'big'))], core.InvalidPacketError: None},
+    # ... and a point that is not on the curve is rejected the way the library back end rejects it
+    # (InvalidPacketError is a subclass of ValueError: listed first so that it is matched first)
+    raises={
+        core.InvalidPacketError: None,  # point at infinity: also a rejection, whatever the point was
+        ValueError: lambda public_key_x, public_key_y: [not peer_point_on_curve(public_key_x, public_key_y)],
+    },
     modifies=[],
     uses=['bumble.crypto.builtin:_EllipticCurve.ecdh_shared_secret@opaque'],
-    inline=['_Point.__init__'],
-    note='ValueError is what the library back end raises for an invalid point (EllipticCurvePublicNumbers.public_key)',
+    inline=['_Point.__init__', '_EllipticCurve.is_on_curve'],
+    note='the key is on SECP256R1, the only curve EccKey.generate / from_private_key_bytes construct (class model: constants of '
+    '_EllipticCurve.SECP256R1()); ValueError is what the library back end raises for an invalid point '
+    '(EllipticCurvePublicNumbers.public_key)',
 )
 
 
@@ -443,9 +454,21 @@ lemma('private_address_kinds', lemma_nrpa, prop='C14', params={}, inline=['bumbl
 
 
 # ---------------------------------------------------------------------------
-# bounded stand-in (never counted as proved): seeded differential run of the two back ends
+# BOUNDED stand-in (never counted as proved): seeded native run of the two back ends against each other and
+# against the oracle of spec/crypto.py (with the real AES behind the uninterpreted functions).  This is the
+# only check in which the `cryptography` library, the table-driven _AES and the P-256 group arithmetic take
+# part: they are outside the reach of the contracts (external C code / S-box tables / 256-bit non-linear
+# arithmetic).  quick tier: a smoke run; thorough tier: the run of DESIGN.md (N = 2000).
 # ---------------------------------------------------------------------------
+RFC4493_KEY = bytes.fromhex('2b7e151628aed2a6abf7158809cf4f3c')
+RFC4493_MSG = bytes.fromhex('6bc1bee22e409f96e93d7e117393172aae2d8a571e03ac9c9eb76fac45af8e5130c81c46a35ce411e5fbc1191a0a52eff69f2445df4f9b17ad2b417be66c3710')
+RFC4493_MACS = {0: 'bb1d6929e95937287fa37d129b756746', 16: '070a16b46b4d4144f79bdd9dd04a287c', 40: 'dfa66747de9ae63030ca32611497c827', 64: '51f0bebf7e3b9d92fc49741779363cfe'}
+P256_N = P256.n
+
+
 def differential(top, out, tier, seed):
+    from unittest import mock
+
     n = 40 if tier == 'quick' else 2000
     rnd = random.Random(1000 + seed)
     bad = []
@@ -453,43 +476,87 @@ def differential(top, out, tier, seed):
     def rb(k):
         return bytes(rnd.randrange(256) for _ in range(k))
 
+    # RFC 4493 test vectors: both back ends and both forms of the oracle
+    for ln, mac in RFC4493_MACS.items():
+        m = RFC4493_MSG[:ln]
+        got = {'builtin': cb.aes_cmac(m, RFC4493_KEY), 'cryptography': cc.aes_cmac(m, RFC4493_KEY), 'cmac_rfc': cmac_rfc(RFC4493_KEY, m), 'cmac_rfc_any': cmac_rfc_any(RFC4493_KEY, m)}
+        for who, v in got.items():
+            if v.hex() != mac:
+                bad.append(('rfc4493 vector', who, ln))
+    lengths = list(range(0, 81)) + [95, 96, 97, 127, 128, 129, 255, 256, 257]
     for i in range(n):
         k, d = rb(16), rb(16)
-        if cb.e(k, d) != cc.e(k, d):
+        if not (cb.e(k, d) == cc.e(k, d) == rev(e_be(rev(k), rev(d)))):
             bad.append(('e', k.hex(), d.hex()))
-        m = rb(i % 81)
-        if cb.aes_cmac(m, k) != cc.aes_cmac(m, k):
+        m = rb(lengths[i % len(lengths)])
+        if not (cb.aes_cmac(m, k) == cc.aes_cmac(m, k) == cmac_rfc_any(k, m)):
             bad.append(('aes_cmac', k.hex(), m.hex()))
+    # every Security Manager function under either back end (module globals patched as tests/smp_test.py does)
+    n_sm = 4 if tier == 'quick' else 200
+    for i in range(n_sm):
+        a = dict(k=rb(16), r=rb(16), preq=rb(7), pres=rb(7), iat=rnd.randrange(2), rat=rnd.randrange(2), ia=rb(6), ra=rb(6), u=rb(32), v=rb(32), x=rb(16), z=rb(1), w=rb(32), n1=rb(16), n2=rb(16), a1=rb(7), a2=rb(7), io=rb(3), kid=rb(4), r3=rb(3))
+        res = []
+        for backend in (cb, cc):
+            with mock.patch.object(crypto, 'e', backend.e), mock.patch.object(crypto, 'aes_cmac', backend.aes_cmac):
+                res.append((
+                    crypto.ah(a['k'], a['r3']), crypto.c1(a['k'], a['r'], a['preq'], a['pres'], a['iat'], a['rat'], a['ia'], a['ra']), crypto.s1(a['k'], a['r'], a['x']),
+                    crypto.f4(a['u'], a['v'], a['x'], a['z']), crypto.f5(a['w'], a['n1'], a['n2'], a['a1'], a['a2']), crypto.f6(a['k'], a['n1'], a['n2'], a['r'], a['io'], a['a1'], a['a2']),
+                    crypto.g2(a['u'], a['v'], a['x'], a['r']), crypto.h6(a['k'], a['kid']), crypto.h7(a['r'], a['k']),
+                ))
+        if res[0] != res[1]:
+            bad.append(('security manager function', {k_: (v_.hex() if isinstance(v_, bytes) else v_) for k_, v_ in a.items()}))
+    # ECC: public key derivation, ECDH symmetry, boundary scalars, invalid points
     n_ecc = 4 if tier == 'quick' else 60
-    for i in range(n_ecc):
-        d1, d2 = rb(32), rb(32)
-        try:
-            a1, a2 = cb.EccKey.from_private_key_bytes(d1), cc.EccKey.from_private_key_bytes(d1)
-            b1, b2 = cb.EccKey.from_private_key_bytes(d2), cc.EccKey.from_private_key_bytes(d2)
-        except ValueError:
+    scalars = [(1).to_bytes(32, 'big'), (2).to_bytes(32, 'big'), (P256_N - 1).to_bytes(32, 'big'), (P256_N - 2).to_bytes(32, 'big')]
+    pairs = [(scalars[0], scalars[2]), (scalars[1], scalars[3])] + [(rb(32), rb(32)) for _ in range(n_ecc)]
+    for d1, d2 in pairs:
+        if not (0 < int.from_bytes(d1, 'big') < P256_N and 0 < int.from_bytes(d2, 'big') < P256_N):
             continue
-        if (a1.x, a1.y) != (a2.x, a2.y):
-            bad.append(('public key', d1.hex()))
-        s = [a1.dh(b1.x, b1.y), a2.dh(b2.x, b2.y), b1.dh(a1.x, a1.y), b2.dh(a2.x, a2.y)]
-        if len(set(s)) != 1:
-            bad.append(('ecdh', d1.hex(), d2.hex()))
+        a1, a2 = cb.EccKey.from_private_key_bytes(d1), cc.EccKey.from_private_key_bytes(d1)
+        b1, b2 = cb.EccKey.from_private_key_bytes(d2), cc.EccKey.from_private_key_bytes(d2)
+        if (a1.x, a1.y) != (a2.x, a2.y) or (b1.x, b1.y) != (b2.x, b2.y):
+            bad.append(('public key', d1.hex(), d2.hex()))
+        if not on_p256(int.from_bytes(a1.x, 'big'), int.from_bytes(a1.y, 'big')):
+            bad.append(('public key not on the curve', d1.hex()))
+        sec = []
+        for key, peer in ((a1, b1), (a2, b2), (b1, a1), (b2, a2)):
+            try:
+                sec.append(key.dh(peer.x, peer.y))
+            except ValueError as e:  # the point at infinity (d1 * d2 = 0 mod n): both must refuse
+                sec.append(type(e).__name__ if not isinstance(e, core.InvalidPacketError) else 'ValueError')
+        if len(set(sec)) != 1:
+            bad.append(('ecdh', d1.hex(), d2.hex(), [s_ if isinstance(s_, str) else s_.hex() for s_ in sec]))
+    n_bad_pts = 6 if tier == 'quick' else 200
+    for i in range(n_bad_pts):
+        d1 = (rnd.randrange(1, P256_N)).to_bytes(32, 'big')
+        px, py = ((0, 0), (5, 7), (P256.g_x, P256.g_y ^ 1))[i] if i < 3 else (rnd.randrange(1 << 256), rnd.randrange(1 << 256))
+        outcome = []
+        for backend in (cb, cc):
+            try:
+                outcome.append(backend.EccKey.from_private_key_bytes(d1).dh(px.to_bytes(32, 'big'), py.to_bytes(32, 'big')).hex())
+            except ValueError:
+                outcome.append('ValueError')
+        if outcome[0] != outcome[1] or (not on_p256(px, py) and outcome[0] != 'ValueError'):
+            bad.append(('invalid public key', hex(px), hex(py), outcome))
     out['kind'] = 'bounded'
     out['paths'] = 0
     out['sha'] = ''
     out['bounded'] = [
         {
-            'what': 'differential run built-in vs cryptography back end: e, aes_cmac (message lengths 0..80), public key derivation, ECDH symmetry',
-            'bound': f'{n} seeded random inputs for e/aes_cmac, {n_ecc} key pairs for ECC (seed {1000 + seed})',
-            'disagreements': bad[:5],
+            'what': 'native differential run, built-in vs cryptography back end vs the oracle of spec/crypto.py: e, aes_cmac (RFC 4493 vectors, message '
+            'lengths 0..80 and around 96/128/256), ah/c1/s1/f4/f5/f6/g2/h6/h7 under either back end, public key derivation, ECDH symmetry '
+            '(incl. scalars 1, 2, n-1, n-2), rejection of off-curve points by both back ends',
+            'bound': f'{n} seeded random inputs for e/aes_cmac, {n_sm} for the Security Manager functions, {len(pairs)} key pairs, {n_bad_pts} invalid points (seed {1000 + seed})',
+            'disagreements': [repr(b)[:300] for b in bad[:5]],
         }
     ]
     # reported as one obligation that is *not* a proof: it only fails when a disagreement was observed
     out['names']['C14/differential/bounded-agreement'] = {
         'kind': 'bounded', 'n': 1, 'proved': 0 if bad else 1, 'refuted': 1 if bad else 0, 'unknown': 0, 'vacuous': 0, 'disagree': 0,
         'time': 0.0, 'max_time': 0.0, 'backends': {'native-differential': 1}, 'abstracted': False, 'expect_sat': False, 'loc': 'differential',
-        'details': [], 'witnesses': [{'loc': 'differential', 'decisions': [], 'info': {}, 'solver': 'native', 'detail': repr(bad[:3]), 'replay': {'outcome': 'violated', 'confirms': True, 'failed': [repr(bad[:3])]}}] if bad else [],
+        'details': [], 'witnesses': [{'loc': 'differential', 'decisions': [], 'info': {}, 'solver': 'native', 'detail': repr(bad[:3])[:600], 'replay': {'outcome': 'violated', 'confirms': True, 'failed': [repr(bad[:3])[:600]]}}] if bad else [],
     }
     return out
 
 
-lemma('backend_differential', lambda: None, prop='C14', params={}, custom=differential)
+lemma('backend_differential', lambda: None, prop='C14', params={}, custom=differential, note='BOUNDED stand-in: seeded native differential run (see `bounded` in the evidence); never counted as proved')
